@@ -16,7 +16,7 @@ import re
 import core
 
 KINDS = ("process", "process16", "procrelay", "policy", "hdrc", "utf16c", "authpayload", "matchauth", "clientip",
-         "paa", "usertok", "handshake", "tunnel", "config", "ntlm")
+         "paa", "usertok", "handshake", "tunnel", "config", "ntlm", "relay", "segment")
 MAX_LINE = 1500      # characters of a case line: keeps the generated file small
 SAMPLE = 150
 
@@ -150,6 +150,11 @@ def term(c):
                                                 coq_bool(flags[1]), coq_bool(flags[2]), lens[0], lens[1], lens[2], lens[3], lens[4])
         e = "{| e_idp_ok := %s; e_keytab_loadable := %s; e_krb5conf_ok := %s |}" % (coq_bool(envb[0]), coq_bool(envb[1]), coq_bool(envb[2]))
         return "config_obs %s %s" % (r, e)
+    if k == "relay":
+        return "relay_obs %s %s" % (coq_hexlist(f[0]), coq_hexlist(f[1]))
+    if k == "segment":
+        # bits, live, class, whole, seg
+        return "segment_obs (%s) %s %s %s" % (coq_cfg(f[0], "0000000", "0"), coq_hexlist(f[1]), coq_items(f[4]), coq_items(f[3]))
     if k == "ntlm":
         db = "[]" if f[0] == "-" else "[" + "; ".join(
             "(%s, %s)" % (blist(hexf(e.split("=")[0])), blist(hexf(e.split("=")[1]))) for e in f[0].split(";")) + "]"
@@ -215,7 +220,7 @@ def run(prop, cases, log):
     with open(path, "w") as f:
         f.write("(* generated by lib/coqcases.py: %d sampled cases of %s re-evaluated inside Coq *)\n" % (len(cs), prop))
         f.write("From Coq Require Import List NArith ZArith Bool.\nFrom Coq.Strings Require Import Byte.\n")
-        f.write("From RDPGW Require Import Lib.Bytes Gen.Consts Model.Packets Model.Processor Model.Policy Model.Token Model.Config Model.Ntlm Spec.Show.\n")
+        f.write("From RDPGW Require Import Lib.Bytes Gen.Consts Model.Packets Model.Processor Model.Policy Model.Token Model.Config Model.Ntlm Model.Relay Spec.Show.\n")
         f.write("Import ListNotations.\n\n")
         for i, c in enumerate(cs):
             f.write("Definition c%d : bool := bytes_eqb (%s) %s.\n" % (i, term(c), blist(c.model.encode())))
